@@ -120,10 +120,13 @@ package builder
 
 //@ func (*Session).GetBuilderGeneratorForType
 //@   requires _this != nil
-//@   modifies smHas, alloc
+//@   modifies smHas, alloc, wgOpen
 //@   runtime_panics
 //@   ensures smHas[smKey(uint64(_this.builderGenerators), dstType)]
 //@   xensures smHas[smKey(uint64(_this.builderGenerators), dstType)] == old(smHas[smKey(uint64(_this.builderGenerators), dstType)])
+// every waiter of the placeholder is released on every way out (an unreleased one blocks a later call forever)
+//@   ensures wgOpen == old(wgOpen)
+//@   xensures wgOpen == old(wgOpen)
 
 // ---------------------------------------------------------------------------------------------
 // Chunked arrays (C04 kernel). A chunk header counts ELEMENTS, data events deliver BYTES: the
